@@ -20,18 +20,24 @@ Record pfile := {
   pf_exists : bool;                   (* the file is there *)
   pf_parquet : bool;                  (* DataFile.file_format is parquet *)
   pf_footer : option aschema;         (* its parquet footer schema; None: no readable footer *)
-  pf_rows : list srow
+  pf_rows : list srow;
+  pf_lo : option (list (Z * value));  (* DataFile.lower_bounds / upper_bounds as the CALLER supplied them *)
+  pf_hi : option (list (Z * value))   (* (None: not supplied) -- a claim about the file, not a fact *)
 }.
 
 (* A window of failing storage operations that lasts exactly as long as one call (cleared before the
    transaction ends):
      FBefore      metadata reads fail from the start of the call: _resolve_table_schema -- the first thing both
-                  append_data and append_files do -- raises; the table schema must NOT be taken for absent
-     FMarker      writes of in-flight markers fail: append_data raises once its schema argument has been
-                  checked, before anything is written (append_files writes no marker)
+                  append_data and append_files do -- meets a failing refresh()
+     FMarker      writes of in-flight markers fail: append_data meets the failure once its schema argument has
+                  been checked, before anything is written (append_files writes no marker)
      FAfterWrite  metadata reads fail once the call has written something: append_data has validated, written
-                  its marker and its data file, and raises when it queues the file (append_files reads the
-                  metadata again); append_files itself writes nothing and is not affected *)
+                  its marker and its data file, and meets the failure when it queues the file (append_files
+                  reads the metadata again); append_files itself writes nothing and is not affected
+   What the code does with such a failure is NOT written down here: it is read off the source on every run
+   (Gen/GenSchema.v: resolve_refresh_propagates, marker_failure_propagates, queue_failure_propagates -- is the
+   failing operation outside every try block, so that the exception reaches the caller?).  A handler around
+   refresh() would turn "metadata unreadable" into "no persisted schema, nothing to enforce". *)
 Inductive fault := FBefore | FMarker | FAfterWrite.
 
 Inductive call :=
@@ -50,8 +56,18 @@ Definition tag_files_refused : Z := 6.
 Definition tag_storage_fault : Z := 7.
 
 Definition footer_of (p : pfile) : aschema := match pf_footer p with Some a => a | None => [] end.
-Definition to_dfile (p : pfile) : dfile :=
-  {| df_id := pf_id p; df_arrow := footer_of p; df_rows := pf_rows p; df_lo := []; df_hi := [] |}.
+
+(* Transaction._with_verified_bounds: bounds that come with a pre-built file are never stored as given.  A
+   file without any keeps none; otherwise they are RECOMPUTED from the file's content under the table
+   schema's field ids, exactly as append_data computes them (dropped on a table without a schema). *)
+Definition verified_bounds (ts : option ischema) (p : pfile) : list (Z * value) * list (Z * value) :=
+  match pf_lo p, pf_hi p with
+  | None, None => ([], [])
+  | _, _ => match ts with Some s => bounds_for (sfields s) (footer_of p) (pf_rows p) | None => ([], []) end
+  end.
+Definition to_dfile (ts : option ischema) (p : pfile) : dfile :=
+  {| df_id := pf_id p; df_arrow := footer_of p; df_rows := pf_rows p;
+     df_lo := fst (verified_bounds ts p); df_hi := snd (verified_bounds ts p) |}.
 
 (* the transaction in progress: the queued data files of its append operations, in order, and the names
    of the data files it wrote itself (deleted again by _rollback) *)
@@ -79,58 +95,80 @@ Fixpoint check_files (ts : option ischema) (c : cache) (fs : list pfile) : cache
   end.
 
 Section TxMachine.
-  Variable conv : atype -> pyval -> option pyval.
+  Variable conv : catype -> pyval -> option pyval.
 
   Definition with_store (w : world) (store : list Z) (next : Z) : world :=
     {| w_schema := w_schema w; w_snaps := w_snaps w; w_store := store; w_next := next; w_caches := w_caches w |}.
 
-  (* tx.append_data: validate, convert, WRITE the data file, then queue it through append_files (which
-     checks the file just written like any other) *)
-  Definition stage_records (late_fault : bool) (w : world) (h : Z) (arg : option ischema) (recs : list record) : world * option dfile * list Z * Z :=
-    match resolve (w_schema w) arg with
-    | inr o => (w, None, [], tag_of o)
-    | inl s =>
-      if negb (forallb (validate_record (sfields s)) recs) then (w, None, [], tag_of RejRecords) else
-      let (a, c') := create_arrow_schema (cache_of w h) s in
-      let w1 := set_cache w h c' in
-      match convert conv a recs with
-      | None => (w1, None, [], tag_of RejConvert)
-      | Some rows =>
-        let (lo, hi) := bounds_for (sfields s) a rows in
-        let f := {| df_id := w_next w; df_arrow := a; df_rows := rows; df_lo := lo; df_hi := hi |} in
-        let w2 := with_store w1 (w_next w :: w_store w1) (w_next w + 1) in
-        let p := {| pf_id := w_next w; pf_canonical := true; pf_exists := true; pf_parquet := true; pf_footer := Some a; pf_rows := rows |} in
-        if late_fault then (w2, None, [w_next w], tag_storage_fault) else   (* the file stays written, unqueued *)
-        let (c2, ok) := check_files (w_schema w2) (cache_of w2 h) [p] in
-        let w3 := set_cache w2 h c2 in
-        if ok then (w3, Some f, [w_next w], 0) else (w3, None, [w_next w], tag_files_refused)
+  (* what _resolve_table_schema yields: Some t -- the persisted schema t (None: a table without one); None -- the
+     call raises.  While metadata reads fail the failure reaches the caller iff refresh() is outside every try
+     block (regenerated); otherwise the unreadable schema is taken for "no persisted schema". *)
+  Definition seen_schema (unreadable : bool) (w : world) : option (option ischema) :=
+    if unreadable then (if resolve_refresh_propagates then None else Some None) else Some (w_schema w).
+
+  (* tx.append_data: resolve the table schema (s1) and check the argument against it, write the in-flight marker,
+     validate, convert, WRITE the data file, then queue it through append_files -- which resolves the table schema
+     again (s2) and checks the file just written like any other *)
+  Definition stage_records (s1 : option (option ischema)) (marker_fails : bool) (s2 : option (option ischema))
+      (w : world) (h : Z) (arg : option ischema) (recs : list record) : world * option dfile * list Z * Z :=
+    match s1 with
+    | None => (w, None, [], tag_storage_fault)
+    | Some t1 =>
+      match resolve t1 arg with
+      | inr o => (w, None, [], tag_of o)
+      | inl s =>
+        if marker_fails && marker_failure_propagates then (w, None, [], tag_storage_fault) else
+        if negb (forallb (validate_record (sfields s)) recs) then (w, None, [], tag_of RejRecords) else
+        let (a, c') := create_arrow_schema (cache_of w h) s in
+        let w1 := set_cache w h c' in
+        match convert conv a recs with
+        | None => (w1, None, [], tag_of RejConvert)
+        | Some rows =>
+          let (lo, hi) := bounds_for (sfields s) a rows in
+          let f := {| df_id := w_next w; df_arrow := a; df_rows := rows; df_lo := lo; df_hi := hi |} in
+          let w2 := with_store w1 (w_next w :: w_store w1) (w_next w + 1) in
+          let p := {| pf_id := w_next w; pf_canonical := true; pf_exists := true; pf_parquet := true; pf_footer := Some a;
+                      pf_rows := rows; pf_lo := Some lo; pf_hi := Some hi |} in
+          match s2 with
+          | None =>                                   (* the file stays written, unqueued *)
+            (w2, None, [w_next w], if queue_failure_propagates then tag_storage_fault else 0)
+          | Some t2 =>
+            let (c2, ok) := check_files t2 (cache_of w2 h) [p] in
+            let w3 := set_cache w2 h c2 in
+            if ok then (w3, Some f, [w_next w], 0) else (w3, None, [w_next w], tag_files_refused)
+          end
+        end
       end
     end.
 
   (* one call: the new world, the files this call wrote itself, its tag, and the files it ADDS to the queue *)
-  Definition call_records (late : bool) (w : world) (h : Z) (arg : option ischema) (recs : list record) : world * list Z * Z * list dfile :=
-    match stage_records late w h arg recs with
+  Definition call_records (s1 : option (option ischema)) (marker_fails : bool) (s2 : option (option ischema))
+      (w : world) (h : Z) (arg : option ischema) (recs : list record) : world * list Z * Z * list dfile :=
+    match stage_records s1 marker_fails s2 w h arg recs with
     | (w', Some f, wr, t) => (w', wr, t, [f])
     | (w', None, wr, t) => (w', wr, t, [])
     end.
 
-  Definition call_files (w : world) (h : Z) (fs : list pfile) : world * list Z * Z * list dfile :=
-    let (c', ok) := check_files (w_schema w) (cache_of w h) fs in
-    let w1 := set_cache w h c' in
-    if ok then (w1, [], 0, map to_dfile fs) else (w1, [], tag_files_refused, []).
+  Definition call_files (s1 : option (option ischema)) (w : world) (h : Z) (fs : list pfile) : world * list Z * Z * list dfile :=
+    match s1 with
+    | None => (w, [], tag_storage_fault, [])
+    | Some t1 =>
+      let (c', ok) := check_files t1 (cache_of w h) fs in
+      let w1 := set_cache w h c' in
+      if ok then (w1, [], 0, map (to_dfile t1) fs) else (w1, [], tag_files_refused, [])
+    end.
 
   Definition call_step (w : world) (h : Z) (c : call) : world * list Z * Z * list dfile :=
+    let ok := seen_schema false w in
+    let bad := seen_schema true w in
     match c with
-    | CRecords arg recs => call_records false w h arg recs
-    | CFiles fs => call_files w h fs
-    | CRecordsF FBefore _ _ | CFilesF FBefore _ => (w, [], tag_storage_fault, [])
-    | CRecordsF FMarker arg _ =>
-      match resolve (w_schema w) arg with
-      | inr o => (w, [], tag_of o, [])
-      | inl _ => (w, [], tag_storage_fault, [])
-      end
-    | CRecordsF FAfterWrite arg recs => call_records true w h arg recs
-    | CFilesF _ fs => call_files w h fs
+    | CRecords arg recs => call_records ok false ok w h arg recs
+    | CFiles fs => call_files ok w h fs
+    | CRecordsF FBefore arg recs => call_records bad false bad w h arg recs
+    | CRecordsF FMarker arg recs => call_records ok true ok w h arg recs
+    | CRecordsF FAfterWrite arg recs => call_records ok false bad w h arg recs
+    | CFilesF FBefore fs => call_files bad w h fs
+    | CFilesF _ fs => call_files ok w h fs
     end.
 
   Definition enqueue (q : txstate) (wr : list Z) (added : list dfile) : txstate :=
